@@ -484,7 +484,7 @@ def writeFITSTable(filename, table):
         if name.startswith('err_'):
             fmt = 'E'
         elif name == 'uuid' or isinstance(table[name][0], str):
-            fmt = '{0}A'.format(max(len(val) for val in table[name]))
+            fmt = '{0}A'.format(max(1, max(len(val) for val in table[name])))
         else:
             fmt = FITSTableType(table[name][0])
         cols.append(fits.Column(name=name, format=fmt, array=table[name]))
